@@ -579,7 +579,7 @@ void c29_case(Ctx& c, Rng& r) {
     };
 
     // LIST
-    {
+    auto list_check = [&] {
         std::vector<ChunkStore::SnapshotEntry> snap;
         { std::scoped_lock lock(d.node_mutex); snap = d.node->stored_chunks(); }
         const auto resp = client.send("LIST");
@@ -602,7 +602,8 @@ void c29_case(Ctx& c, Rng& r) {
             expect_field("LIST", *resp, "COUNT", std::to_string(snap.size()), !snap.empty());
             expect_field("LIST", *resp, "CODE", "OK_LIST", !snap.empty());
         }
-    }
+    };
+    list_check();
     // DEFAULTS
     {
         const auto resp = client.send("DEFAULTS");
@@ -712,6 +713,15 @@ void c29_case(Ctx& c, Rng& r) {
         }
     }
     c.sig(sig);
+    // LIST once more while one chunk is inside its last second (and the shorter-lived ones have just expired, unswept): a live
+    // chunk is listed however little time it has left
+    if (nchunks > 0 && nchunks <= 40 && r.chance(1, 2)) {
+        const auto j = r.below(nchunks);
+        const std::int64_t left_ns = 1 + static_cast<std::int64_t>(r.below(999'999'999));
+        vclk::advance(seconds(600 + static_cast<std::int64_t>(j)) - nanoseconds(left_ns));
+        c.note("list.requests-with-a-chunk-in-its-last-second");
+        list_check();
+    }
     if (c.cur_case % 97 == 0) c.sample(J().kv("chunks", nchunks).kv("endpoints", nendpoints).kv("bootstrap_nodes", nboot).kv("warnings", nwarn).str());
 }
 HX_PROPERTY("C29", c29_case);
